@@ -14,17 +14,27 @@ Families of runs (``cfg["mode"]``):
   enc  DDM, EDDM, STEPD, ADWINAccuracy: ALL 2^n outcome sequences, the variant
        is fed a re-encoding of the labels with the same agreement pattern (one
        encoding per detector object; several objects may share a search tree).
+       The "roll<j>" encodings put y_true and y_pred into DIFFERENT 1-element
+       containers (scalar, numpy scalar, list, tuple, nested list, arrays of
+       shape (1,), (1,1), (), narrow-int / object arrays, pandas Series with
+       default / integer / string index, 1x1 DataFrame); the pair of containers
+       and the label kind change at every position (Latin-square schedule).
+  cont same detectors: ALL 2^n outcome sequences x ALL ordered pairs (y_true
+       container, y_pred container) of those 13 containers, the pair fixed for
+       the whole history, the label kind (int / str / bool / float) rotating
+       with the position: label and prediction come from different sources.
   mix  same detectors: every outcome sequence x every choice of <= k positions
        whose pair is replaced by another pair with the same agreement.
   lfr  LinearFourRates: ALL 4^n confusion-cell sequences, int-like encodings of
-       the same 0/1 cell.
+       the same 0/1 cell (incl. "box": tuple / nested list / Series / 0-d array /
+       1x1 DataFrame, a different container for truth and prediction).
   X    concept-drift detectors: junk in the unused argument X (with labels).
   y    change / data-drift detectors (and MD3, which documents the same): junk
        in the unused y_true / y_pred of update() (and of set_reference() for
        batch detectors and MD3).
 
 A plain labelled update of a concept-drift detector (the canonical call of the
-modes enc / mix / lfr / X) that raises is itself a violation: nothing allows it,
+modes enc / cont / mix / lfr / X) that raises is itself a violation: nothing allows it,
 and the property could not be observed at all.  In mode y an exception raised
 identically by both runs (CUSUM: zero standard deviation, PCACD: sklearn
 parameter error) only ends the history.
@@ -228,7 +238,75 @@ def _canonical_pair(o, pos):
     return 1, (0 if o else 1)
 
 
-ENC_MIX = dict(ENC)
+# ----------------------------------------------------------------------------
+# containers of ONE label (families cont / roll): label and prediction usually come from different
+# sources (y_true = y[i] from a column, y_pred = model.predict(row) / .tolist() / a Series slice ...), so
+# the two single labels of one call arrive in DIFFERENT containers.  Every container below holds exactly
+# one observation (np.array(y).ravel() has shape (1,)), the label inside keeps its kind and value.
+# ----------------------------------------------------------------------------
+KIND_LABELS = {
+    "int": (3, 7, -5),
+    "str": ("cat", "dog", ""),
+    "bool": (True, False),
+    "float": (0.5, 1.5, 0.1 + 0.2, 0.3),
+}
+KINDS = tuple(KIND_LABELS)
+_NP_OF_KIND = {"int": np.int16, "str": np.str_, "bool": np.bool_, "float": np.float64}
+# a second array dtype holding the same value: a narrow int, or an object array (a pandas object column's .values)
+_ALT_DTYPE = {"int": np.int8, "str": object, "bool": object, "float": object}
+
+CONT = {
+    "scalar": lambda v, kind: v,
+    "npscalar": lambda v, kind: _NP_OF_KIND[kind](v),
+    "list": lambda v, kind: [v],
+    "tuple": lambda v, kind: (v,),
+    "nested": lambda v, kind: [[v]],
+    "arr(1,)": lambda v, kind: np.array([v]),
+    "arr(1,1)": lambda v, kind: np.array([[v]]),
+    "arr0d": lambda v, kind: np.array(v),
+    "arr_alt": lambda v, kind: np.array([v], dtype=_ALT_DTYPE[kind]),
+    "series": lambda v, kind: pd.Series([v]),
+    "series@5": lambda v, kind: pd.Series([v], index=[5]),
+    "series@a": lambda v, kind: pd.Series([v], index=["a"], name="y"),
+    "frame": lambda v, kind: pd.DataFrame({"y": [v]}, index=[2]),
+}
+CONTS = tuple(CONT)
+
+
+def _cont_pair(ct, cp, kind, o, pos):
+    t, p = _pair(KIND_LABELS[kind], o, pos // len(KINDS))
+    return CONT[ct](t, kind), CONT[cp](p, kind)
+
+
+def _make_cont_enc(ct, cp):
+    # fixed ordered container pair for the whole history, the label kind rotates with the position
+    def enc(o, pos):
+        return _cont_pair(ct, cp, KINDS[pos % len(KINDS)], o, pos)
+
+    return enc
+
+
+# family cont: one detector object per ORDERED pair of containers (y_true container > y_pred container)
+CONT_ENC = {"%s>%s" % (ct, cp): _make_cont_enc(ct, cp) for ct in CONTS for cp in CONTS}
+
+
+def _make_roll_enc(j):
+    # the container pair changes at every position (Latin-square schedule: offset j between the container of the
+    # label and that of the prediction), and so does the label kind
+    def enc(o, pos):
+        n = len(CONTS)
+        return _cont_pair(CONTS[pos % n], CONTS[(pos + j) % n], KINDS[(pos + j) % len(KINDS)], o, pos)
+
+    return enc
+
+
+ROLL_ENC = {"roll%d" % j: _make_roll_enc(j) for j in range(len(CONTS))}
+ROLL = {"quick": ["roll%d" % j for j in (1, 4, 7, 10)], "thorough": ["roll%d" % j for j in (0, 1, 4, 7, 10, 12)]}
+
+ALL_ENC = dict(ENC)
+ALL_ENC.update(ROLL_ENC)
+
+ENC_MIX = dict(ALL_ENC)
 ENC_MIX["can"] = _canonical_pair  # the pair the driver registry feeds
 
 
@@ -275,6 +353,25 @@ def _l_mixed(t, p, pos):  # a different encoding at every position, and for trut
     return a, b
 
 
+_L_VAL = (int, bool, np.int8, np.uint8, np.bool_, np.int64)
+_L_BOX = (
+    lambda v: (v,),
+    lambda v: [[v]],
+    lambda v: pd.Series([v]),
+    lambda v: pd.Series([v], index=["a"]),
+    lambda v: np.array(v),
+    lambda v: pd.DataFrame({"y": [v]}, index=[2]),
+    lambda v: pd.Series([v], index=[5], dtype=object),
+)
+
+
+def _l_box(t, p, pos):  # the other 1-element containers, a different one for truth and prediction
+    n = len(_L_BOX)
+    a = _L_BOX[pos % n](_L_VAL[pos % len(_L_VAL)](t))
+    b = _L_BOX[(pos + 1 + pos // n) % n](_L_VAL[(pos + 2) % len(_L_VAL)](p))
+    return a, b
+
+
 LFR_ENC = {
     "bool": _l_bool,
     "npint": _l_npint,
@@ -282,6 +379,7 @@ LFR_ENC = {
     "list1": _l_list1,
     "arr1": _l_arr1,
     "mixed": _l_mixed,
+    "box": _l_box,
 }
 
 
@@ -461,7 +559,10 @@ class Twins(System):
     def _feed_variant(self, cfg, det, variant, ev, pos):
         d, p, mode = self.d, cfg["params"], cfg["mode"]
         if mode == "enc":
-            yt, yp = ENC[variant](ev, pos)
+            yt, yp = ALL_ENC[variant](ev, pos)
+            det.update(y_true=yt, y_pred=yp)
+        elif mode == "cont":
+            yt, yp = CONT_ENC[variant](ev, pos)
             det.update(y_true=yt, y_pred=yp)
         elif mode == "mix":
             yt, yp = ENC_MIX[ev[1]](ev[0], pos)
@@ -506,7 +607,7 @@ class Twins(System):
             )
         oc = None if c_exc is not None else public(d, C)
 
-        what = {"enc": "encoding", "mix": "pair encoding (<= k positions re-encoded)", "lfr": "cell encoding", "X": "unused X", "y": "unused y"}[mode]
+        what = {"enc": "encoding", "cont": "containers (y_true>y_pred)", "mix": "pair encoding (<= k positions re-encoded)", "lfr": "cell encoding", "X": "unused X", "y": "unused y"}[mode]
         for v, T in zip(self.variants(cfg), state["tw"]):
             vname = ev[1] if mode == "mix" else v
             rng.seed_step(*seed_args)
@@ -542,7 +643,7 @@ class Twins(System):
                     observed={k: _show(ot.get(k)) for k in bad},
                     sig="%s-twin:%s:%s:%s" % (mode, name, vname, ",".join(b.replace("attr:", "") for b in bad)),
                 )
-            tag = {"enc": "enc", "mix": "pair", "lfr": "lfr_enc", "X": "unusedX", "y": "unusedY"}[mode]
+            tag = {"enc": "enc", "cont": "cont", "mix": "pair", "lfr": "lfr_enc", "X": "unusedX", "y": "unusedY"}[mode]
             if not (mode == "mix" and vname == cfg["base"]):
                 ctx.count("%s:%s" % (tag, vname))
                 if mode in ("X", "y"):
@@ -569,8 +670,8 @@ class Twins(System):
             ctx.count("alarm:%s:%s" % (mode, name))
             for v in self.variants(cfg):
                 vname = ev[1] if mode == "mix" else v
-                if mode in ("enc", "lfr"):
-                    ctx.count("alarm_under_%s:%s" % ("enc" if mode == "enc" else "lfr_enc", vname))
+                if mode in ("enc", "lfr", "cont"):
+                    ctx.count("alarm_under_%s:%s" % ({"enc": "enc", "lfr": "lfr_enc", "cont": "cont"}[mode], vname))
                 elif mode in ("X", "y"):
                     ctx.count("alarm_with_%s:%s" % ("unusedX" if mode == "X" else "unusedY", vname))
             if st == "drift":
@@ -593,7 +694,9 @@ class Twins(System):
     def _describe1(self, cfg, v, ev, pos):
         mode = cfg["mode"]
         if mode == "enc":
-            return "y_true=%r, y_pred=%r" % ENC[v](ev, pos)
+            return "y_true=%r, y_pred=%r" % ALL_ENC[v](ev, pos)
+        if mode == "cont":
+            return "y_true=%r, y_pred=%r" % CONT_ENC[v](ev, pos)
         if mode == "mix":
             return "y_true=%r, y_pred=%r" % ENC_MIX[ev[1]](ev[0], pos)
         if mode == "lfr":
@@ -635,6 +738,20 @@ LFR_DEFAULT = [3, 3, 3, 3, 1, 1, 1, 1, 3, 3, 3, 3, 1, 1, 1, 1]
 LFR_DEV_CFG = 1
 _E = list(ENC)
 ENC_GROUPS = [_E[:7], _E[7:]]  # encodings sharing one search tree (one detector object per encoding)
+# family roll (mode enc, same depth): container pair and label kind change at every position
+ROLL_GROUP = {"quick": 4, "thorough": 3}  # roll encodings sharing one search tree
+# family cont: ALL ordered pairs of the containers, fixed for the whole history; all 2^n outcome sequences
+CONT_DEPTH = {"quick": 6, "thorough": 9}
+
+
+def _enc_groups(tier):
+    r = ROLL[tier]
+    return ENC_GROUPS + [r[i:i + ROLL_GROUP[tier]] for i in range(0, len(r), ROLL_GROUP[tier])]
+
+
+def _cont_groups():
+    # one search tree per container of y_true: its detector objects differ in the container of y_pred
+    return [(ct, ["%s>%s" % (ct, cp) for cp in CONTS]) for ct in CONTS]
 COST = {"KdqTreeBatch": 60, "LinearFourRates": 20, "HDDDM": 30, "CDBD": 25, "NNDVI": 8, "KdqTreeStreaming": 10, "PageHinkley": 4, "CUSUM": 3, "STEPD": 2, "ADWINAccuracy": 2}
 
 # ADWINAccuracy: with 0/1 input the registry's parameter sets need >= 10 samples for a cut; this
@@ -688,10 +805,19 @@ def tasks(tier, seed):
     n = ENC_DEPTH[tier]
     for name in ERR:
         for ci, p in _configs(name, tier, "enc"):
-            for gi, grp in enumerate(ENC_GROUPS):
+            for gi, grp in enumerate(_enc_groups(tier)):
+                fam = "enc" if gi < len(ENC_GROUPS) else "enc-roll"
                 cfg = {"id": "enc%d" % ci, "mode": "enc", "params": p, "variants": grp}
-                out += _dfs_tasks(name, cfg, n, 3 if thorough else 0, "enc|%d|g%d" % (ci, gi),
+                out += _dfs_tasks(name, cfg, n, 3 if thorough else 0, "%s|%d|g%d" % (fam, ci, gi),
                                   COST.get(name, 1) * (8 if thorough else 4), (0, 1))
+    # -- cont: all outcome sequences x all ordered pairs of 1-element containers ---
+    n = CONT_DEPTH[tier]
+    for name in ERR:
+        for ci, p in _configs(name, tier, "cont"):
+            for ct, grp in _cont_groups():
+                cfg = {"id": "cont%d" % ci, "mode": "cont", "params": p, "variants": grp}
+                out += _dfs_tasks(name, cfg, n, 1 if thorough else 0, "cont|%d|%s" % (ci, ct),
+                                  COST.get(name, 1) * (3 if thorough else 1), (0, 1))
     # -- mix: <= k positions re-encoded differently from the rest ---------------
     depth, k, alts, bases = MIX[tier]
     for name in ERR:
@@ -767,6 +893,10 @@ GE2_Y = ("ADWIN", "CUSUM", "PageHinkley", "PCACD", "HDDDM", "CDBD", "NNDVI")
 def REQUIRED(tier):
     req = ["drift_transitions", "warning_transitions"]
     req += ["enc:%s" % e for e in ENC] + ["alarm_under_enc:%s" % e for e in ENC]
+    # container families: the error-based detectors are deterministic, so these do not depend on VERIF_SEED
+    req += ["enc:%s" % e for e in ROLL[tier]] + ["alarm_under_enc:%s" % e for e in ROLL[tier]]
+    req += ["cont:%s" % e for e in CONT_ENC] + ["alarm_under_cont:%s" % e for e in CONT_ENC]
+    req += ["drift:cont:%s" % n for n in ERR] + ["ge2_drifts:cont:%s" % n for n in ("DDM", "STEPD")]
     req += ["lfr_enc:%s" % e for e in LFR_ENC] + ["alarm_under_lfr_enc:%s" % e for e in LFR_ENC]
     req += ["pair:%s" % a for a in MIX[tier][2]]
     req += ["reencoded_positions", "two_reencoded_positions", "alarm_at_reencoded_position", "ge2_drifts_with_reencoded_position"]
@@ -787,7 +917,9 @@ def describe(tier):
     return {
         "rule": "twin runs on the real detectors: canonical (registry feed: 0/1 ints, unused arguments omitted) vs variant, "
         "same numpy seed before every call, all public observables compared bit-for-bit after every update. "
-        "enc: every binary outcome sequence of length n per parameter set and encoding; mix: every outcome sequence x "
+        "enc: every binary outcome sequence of length n per parameter set and encoding (incl. the roll encodings: y_true and y_pred "
+        "in different 1-element containers that change at every position); cont: every binary outcome sequence x every ORDERED pair "
+        "of 1-element containers (y_true container, y_pred container) kept for the whole history, label kind rotating; mix: every outcome sequence x "
         "every choice of <= k positions whose pair is replaced by a pair of another encoding with the same agreement; "
         "lfr: every sequence of confusion cells per int-like encoding; X / y: every history over the registry alphabet "
         "(batch detectors: plus set_reference with junk labels; PCACD, KdqTreeStreaming, LinearFourRates additionally: long default history with <= k deviations) with junk in "
@@ -796,6 +928,18 @@ def describe(tier):
         "bounds": {
             "enc_depth": ENC_DEPTH[tier],
             "encodings": list(ENC),
+            "roll_encodings": {
+                "depth": ENC_DEPTH[tier],
+                "offsets": ROLL[tier],
+                "schedule": "roll<j>: at position i y_true arrives in container i mod %d, y_pred in container (i+j) mod %d, label kind (i+j) mod %d"
+                % (len(CONTS), len(CONTS), len(KINDS)),
+            },
+            "cont": {
+                "depth": CONT_DEPTH[tier],
+                "containers": list(CONTS),
+                "ordered_pairs": len(CONT_ENC),
+                "label_kinds_rotating_with_position": {k: [repr(v) for v in vs] for k, vs in KIND_LABELS.items()},
+            },
             "mix": {"depth": depth, "k": k, "alternative_encodings": alts, "base_encodings": bases},
             "lfr_depth": LFR_DEPTH[tier],
             "lfr_encodings": list(LFR_ENC),
@@ -821,6 +965,10 @@ def describe(tier):
         "assumptions": [
             "agreement of a pair is Python/numpy equality of two labels of the same kind (both ints, both strings, ...); pairs that are equal only across kinds (1 vs 1.0 vs True) and NaN labels are not used",
             "labels are single observations (scalars or 1-element containers); containers with several observations are C14's subject",
+            "container families (cont / roll / LFR box): every container holds exactly one observation in the sense of the library's own validation "
+            "(np.array(y).ravel() has shape (1,)): scalar, numpy scalar, list, tuple, nested list, arrays of shape (1,), (1,1), (), narrow-int / object "
+            "arrays, pandas Series with default / integer / string index, 1x1 DataFrame; label and prediction of one pair are of the same kind "
+            "(int widths may differ: int8 / int16 / int64 / Python int hold the same integer); dict, set and generator 'containers' are not used",
             "LinearFourRates: only int-like encodings (Python/numpy ints and bools, 1-element lists/arrays of them) of the 0/1 cell, as the property states",
             "numpy's global RNG is re-seeded identically before the canonical call and before every variant call of the same step",
             "the canonical run is the shared driver registry's feed (y_true=1, y_pred in {0,1} as plain ints; X positional/keyword as the driver does)",
